@@ -57,6 +57,7 @@ func recvTypeName(fn *ssa.Function) string {
 
 func runC43(c *core.Ctx) {
 	checkImportExportInverse(c)
+	checkCloneDeepCopiesAccounts(c)
 	nCalls := 0
 	for _, ow := range c43Owners {
 		pk := c.P.Pkgs[ir.PkgPath(ow.pkg)]
